@@ -85,3 +85,14 @@ claim("C18",
       "Decides ONLY width discipline, a necessary condition of BIP32 agreement and of text round-trip self-consistency: no minimal-length big-endian integer ((*big.Int).Bytes()) reaches a fixed-offset copy, an append into a serialisation buffer, a hash write or base58 without left-padding; pad helpers right-align. Interprocedural over hdkeychain + mnemonic code, field-based with the label of ExtendedKey.key refined by the isPrivate flag (pairing verified at the constructor call sites). The hardened-derivation copy of a possibly short private key is a recorded known finding.",
       "Trusted: go/ssa; SetBytes/ScalarBaseMult/PrivKeyFromBytes width-insensitive. NOT decided (not applicable to static analysis): equality with BIP32/BIP39 for all inputs, public/private derivation agreement, mnemonic round trip.",
       "DESIGN.md §4 C18")
+
+claim("C06",
+      "lockset + dominance + affine/provenance rules on the counter read-modify-write and ordinal identity",
+      "Static necessary conditions of once-only issuance with stable ordinals: in nextAddresses the counter read dominates the write of the same bucket and branch polarity under the address-manager lock, the written value is the read value advanced by +1 steps only, the recorded derivation path equals the Child() arguments (affine equality on the index), each key is persisted under its own (branch, index); GenerateNewPublicKey returns the persisted index of the returned key from the one external address issued inside db.Update under the manager lock; GetPublicKeyOrdinal returns the index stored under the argument's address; the keeper names plots from one issuance.",
+      "Trusted: go/ssa, C12-B and C11-LOAD for the transaction and keeper gates. NOT decided: uniqueness across restarts as a value fact, an extra +1 (gap), behaviour under concurrency beyond lock discipline.",
+      "DESIGN.md §4 C06")
+claim("C05",
+      "provenance + polarity check on the branch-selection phi + edge-cut dominance of the signing gates",
+      "Static binding rules: a signing request is looked up under the address of the requested key and signs the caller's digest with the manager that owns the address; the private key cached for an address is Child(own index) of the branch key selected by its own branch (external test → Child(ExternalBranch) key, else Child(InternalBranch)); recorded derivation paths equal the Child() arguments; Sign only behind unlocked and a non-nil key of addrs[addr]; unknown keys fail first; the keeper signs with the key of the space named by the id.",
+      "Trusted: go/ssa, hdkeychain.Child semantics. NOT decided: curve arithmetic, agreement of public-side and private-side derivation.",
+      "DESIGN.md §4 C05")
